@@ -269,8 +269,27 @@ pub fn check_big_molecule(seed: u64, n1: usize, n2: usize, st: &mut Stats) {
         name: "Random".into(),
         items: (0..n).map(|_| LJ2 { position: Point2::new(off + rng.gen_range(-4., 4.), rng.gen_range(-4., 4.)), sigma: rng.gen_range(0.5, 1.5), epsilon: rng.gen_range(0.5, 2.), cutoff }).collect(),
     };
-    let a = mk(n1, 0.);
-    let b = mk(n2, 9.);
+    let mut a = mk(n1, 0.);
+    let mut b = mk(n2, 9.);
+    // half of the cases: particles stored in spatial order (a chain, a sorted cluster), and the
+    // whole system in other units (nanometres, metres): lengths scaled by 1e-3..10
+    if seed % 2 == 1 {
+        a.items.sort_by(|p, q| p.position.x.partial_cmp(&q.position.x).unwrap());
+        b.items.sort_by(|p, q| p.position.y.partial_cmp(&q.position.y).unwrap());
+        let sc = [0.1, 0.25, 1e-3, 10., 0.5][((seed / 2) % 5) as usize];
+        for m in [&mut a, &mut b].iter_mut() {
+            for it in m.items.iter_mut() {
+                it.position = Point2::new(it.position.x * sc, it.position.y * sc);
+                it.sigma *= sc;
+                it.cutoff = it.cutoff.map(|c| c * sc);
+            }
+        }
+        // closer together: the gap between the molecules within a few cutoffs
+        let shift = sc * [1.5, 3., 0.5][((seed / 10) % 3) as usize];
+        for it in b.items.iter_mut() {
+            it.position = Point2::new(it.position.x - 9. * sc + 8. * sc + shift, it.position.y);
+        }
+    }
     let case = json!({"seed": seed, "n1": n1, "n2": n2});
     st.nontrivial(hash64(&[79, seed, n1 as u64, n2 as u64]));
     for (x, y, name) in [(&a, &b, "a.energy(b)"), (&b, &a, "b.energy(a)")].iter() {
